@@ -60,6 +60,10 @@ def _pred(key, want, desc, v):
     if key == "fixers_nonempty_subset_of":
         fx = (v.get("observed") or {}).get("fixers") or []
         return bool(fx) and all(f in want for f in fx)
+    if key == "every_fixer_derives_from_one_of":
+        fx = (v.get("observed") or {}).get("fixers") or []
+        fb = (v.get("observed") or {}).get("fixer_bases") or {}
+        return bool(fx) and all(any(b in want for b in fb.get(f, [])) for f in fx)
     raise KeyError("unknown signature predicate %r" % key)
 
 
